@@ -44,6 +44,13 @@ CLAIMED.update({
          "Seam level (ptePtrFn serves one entry per walk level; mapTemporaryFn, unmapFn, flushTLBEntryFn, readCR2Fn, frame allocator are harness functions); kfmt.Printf/Fprintf stubbed while encoding; the 4096-byte copy is checked at 8 representative offsets; real IDT dispatch (package gate) is outside.", "7 C06"),
 })
 
+CLAIMED.update({
+ "C04": ("Bounded symbolic model checking of the real Map / Unmap / Translate / PageDirectoryTable.Init/Map/Unmap against an independent software MMU over a physical-memory region: every recursive-window address walk() produces is translated by four dependent loads from that memory; N operations on pages from a menu of 7 representative pages (all sharing patterns of table levels, both canonical halves, the temporary-mapping page) with symbolic frames, flags and junk in freshly allocated frames, allocator failure at a symbolic call; afterwards the MMU and Translate agree with a reference map for an arbitrary probe, leaf entries carry exactly the requested flags, changed pages are flushed, the recursive slot is intact; operations on an inactive root leave every page-table frame of the active space bit-for-bit unchanged.",
+         "Pages are enumerated (menu), contents symbolic; physical memory of 8 (12) frames at its physical address; freshly allocated frames hold one arbitrary word replicated in all slots; the nextAddrFn seam maps Map's entry-pointer arithmetic back to the designated table (the <<9 recursive arithmetic of that one expression is not exercised); mapTemporaryFn is the identity stub of the repository's tests; TLB is a log.", "7 C04"),
+ "C08": ("Transition system generated on every run from kernel/sync/spinlock_amd64.s and the go/ssa of Spinlock.Acquire/TryToAcquire/Release (macro-step folding of thread-local instructions): bounded model checking over every schedule (symbolic scheduler) of 2 threads x 1 lock operation x 13 macro-steps (thorough: 2x2x23, 3x1x19) and a one-step induction from an arbitrary state satisfying a label-free invariant for 2, 3 (4) threads: at most one holder, no lost update in the critical section, a failed TryToAcquire leaves the lock word unchanged, a release frees the lock, a free lock can be taken.",
+         "Sequential consistency + atomic locked XCHG (x86-TSO differs only by store->load reordering, which locked instructions drain); aligned MOVL atomic; yieldFn modelled as a call without effect on the lock word; liveness/fairness outside; counterexamples are schedule traces (no native replay of an instruction-level schedule).", "7 C08"),
+})
+
 NOT_APPLICABLE = {
  "C20": "FindRedirects is filepath.Walk + go/parser + ast.CommentMap + fmt over a source tree on disk; the inputs are directory trees and Go source text reached through OS calls, reflection and ~40k lines of standard library that the SSA executor cannot encode, and the non-reproducibility in question comes from runtime map-iteration randomisation, which is not a function of any solver-visible input. No bounded version is within reach of solver-based checking; see DESIGN.md 8.1.",
 }
@@ -62,10 +69,10 @@ def main():
             "thorough_cmd": f"/verif/bin/vcheck {pid} --tier thorough",
             "evidence_file": f"/verif/evidence/{pid}.json",
             "replay_cmd_template": "/verif/bin/vcheck --replay {path}",
-            "engine": "gosym",
+            "engine": "asmbmc" if pid == "C08" else "gosym",
             "level_claimed": {"category": "model_checking", "text": text, "design_ref": "DESIGN.md section " + ref},
             "level_note": note,
-            "technique": "solver-based bounded symbolic execution of go/ssa (SMT bit-vectors, cvc5/z3) with native replay of counterexamples",
+            "technique": ("solver-based bounded model checking + one-step induction of a transition system generated from the assembly and go/ssa (z3/cvc5)" if pid == "C08" else "solver-based bounded symbolic execution of go/ssa (SMT bit-vectors, cvc5/z3) with native replay of counterexamples"),
         })
     na = []
     for pid in props:
@@ -83,6 +90,8 @@ def main():
             "add_only": True,
         },
         "engines": [
+            {"name": "asmbmc", "path": "/verif/engine/asmbmc", "serves_properties": ["C08"],
+             "kind_free_text": "Plan 9 amd64 assembly subset + go/ssa of the Spinlock methods -> macro-step transition system -> BMC with symbolic schedule and 1-induction, z3 4.8.12 / z3 5.1.0 / cvc5 raced"},
             {"name": "gosym", "path": "/verif/engine", "serves_properties": sorted(p for p in CLAIMED if p != "C08"),
              "kind_free_text": "own symbolic executor for go/ssa -> SMT-LIB2 (QF_ABV), cvc5 incremental primary, z3/z3-new/cvc5 one-shot portfolio on timeout, native replay via go test -overlay"},
         ],
